@@ -7,6 +7,9 @@ From TS Require Proofs.C09Common Proofs.C09Recon Proofs.C09Refs Proofs.C09_Kotli
 From TS Require Proofs.C09_TypeScript Proofs.C09_Scala Proofs.C09_Python Proofs.C09_Swift Proofs.C09_Go Proofs.GoAcronyms Proofs.C09_GoAcr.
 From TS Require Import Model.Lang.Common Model.Collect Model.MultiFile Spec.C09MultiSpec.
 From TS Require Spec.C14Spec Proofs.C14Main Proofs.C14Front Proofs.C14Witness Proofs.C09Multi Proofs.C09MultiWitness Proofs.C09MultiTS Proofs.C09MultiC14.
+From TS Require Import Spec.C09MultiLangSpec.
+From TS Require Spec.C14KotlinSpec Proofs.C12MultiStateless Proofs.C09MultiLang Proofs.C09MultiKotlin Proofs.C09MultiKotlinC14 Proofs.C09MultiLangWitness.
+From TS Require Proofs.C12MultiSwift Proofs.C12Multi Proofs.C12MultiGo Proofs.C09MultiSwift Proofs.C09MultiScala Proofs.C09MultiPython Proofs.C09MultiGo.
 Import ListNotations.
 From TS Require Props.C09.
 
@@ -372,3 +375,198 @@ Goal forall (uc : unicode), unicode_ok uc ->
           Spec.C14Spec.rv_generated_name v = c9m_emitted_name arrivals (Spec.C14Spec.rv_from v) (Spec.C14Spec.rv_name v))).
 Proof. exact Props.C09.C09_multi_TypeScript_spelled_and_imported. Qed.
 Print Assumptions Props.C09.C09_multi_TypeScript_spelled_and_imported.
+Goal forall (L : lang) (pfx : str) (ws : c9m_ws) (b : str) (obs : c09_obs),
+    good_C09_multi L pfx ws b obs = true <->
+    (forall d, In d (c9_defs obs) -> c9m_ldef_ok L ws b pfx d) /\ (forall r, In r (c9_refs obs) -> c9m_lref_ok L ws b pfx r).
+Proof. exact Props.C09.C09_multi_good_reflect. Qed.
+Print Assumptions Props.C09.C09_multi_good_reflect.
+Goal forall (L : lang) (ws : c9m_ws) (b pfx : str) (r : c09_ref), c9m_lref_okb L ws b pfx r = true <-> c9m_lref_ok L ws b pfx r.
+Proof. exact Props.C09.C09_multi_ref_reflect. Qed.
+Print Assumptions Props.C09.C09_multi_ref_reflect.
+Goal forall (L : lang) (ws : c9m_ws) (b pfx d : str), c9m_ldef_okb L ws b pfx d = true <-> c9m_ldef_ok L ws b pfx d.
+Proof. exact Props.C09.C09_multi_def_reflect. Qed.
+Print Assumptions Props.C09.C09_multi_def_reflect.
+Goal forall (L : lang) (pfx : str) (e : c09_entity), c9e_kind e <> C9KInner -> c9m_def_class L e = None ->
+    c9m_def_name L pfx e = (pfx ++ renamed (c9e_id e) ++ c9e_suffix e)%list.
+Proof. exact Props.C09.C09_multi_def_name_wanted. Qed.
+Print Assumptions Props.C09.C09_multi_def_name_wanted.
+Goal forall (L : lang) (pfx : str) (ho : list imported -> list imported) (arrivals : list (str * parsed)) (b : str) (pd' : parsed) (fd : file_decls),
+    Proofs.C14Front.oracle_ok ho -> c9m_ids_wf arrivals = true -> In (b, pd') (multi_crates ho arrivals) ->
+    (forall d, In d (fd_decls fd) -> Proofs.C09MultiLang.c9l_decl_ok L pfx pd' d) ->
+    good_C09_multi L pfx arrivals b (c09_observe L fd) = true.
+Proof. exact Props.C09.C09_multi_shape_good. Qed.
+Print Assumptions Props.C09.C09_multi_shape_good.
+Goal forall (uc : unicode) (cfg : kt_config) (ho : list imported -> list imported) (arrivals : list (str * parsed)),
+    Proofs.C14Front.oracle_ok ho -> c9m_ids_wf arrivals = true ->
+    forall (b : str) (pd' : parsed), In (b, pd') (multi_crates ho arrivals) ->
+    forall (c : str) (im : scoped) (text : str), kt_generate_multi uc cfg c im pd' = Ok text ->
+    exists (ds : list kt_decl) (fd : file_decls),
+      kt_decls uc cfg pd' = Ok ds /\ kt_file_decls uc cfg pd' = Ok fd /\ fd_decls fd = map kt_obs ds /\
+      text = (kt_render_header (Proofs.C12MultiStateless.kt_header_multi cfg c) ++ kt_write_imports cfg im ++ List.concat (map kt_render_decl ds))%list /\
+      Forall (fun d => (c09_is_def (kt_obs d) = true -> c9m_ldef_ok Kotlin arrivals b (kt_prefix cfg) (d_name (kt_obs d))) /\
+                       (forall r, In r (c09_decl_refs Kotlin (kt_obs d)) -> c9m_lref_ok Kotlin arrivals b (kt_prefix cfg) r)) ds /\
+      good_C09_multi Kotlin (kt_prefix cfg) arrivals b (c09_observe Kotlin fd) = true.
+Proof. exact Props.C09.C09_multi_Kotlin. Qed.
+Print Assumptions Props.C09.C09_multi_Kotlin.
+Goal forall (uc : unicode) (cfg : kt_config) (pd' : parsed) (ds : list kt_decl), kt_decls uc cfg pd' = Ok ds ->
+    forall d, In d ds -> Proofs.C09MultiLang.c9l_decl_ok Kotlin (kt_prefix cfg) pd' (kt_obs d).
+Proof. exact Props.C09.C09_multi_Kotlin_shape. Qed.
+Print Assumptions Props.C09.C09_multi_Kotlin_shape.
+Goal forall (uc : unicode), unicode_ok uc ->
+  forall (cfg : kt_config) (T ign : list str) (ho_file ho_crate : list imported -> list imported) (hc : crate_types -> crate_types)
+         (ws : list ws_entry) (arrivals : list (str * parsed)),
+    parse_workspace uc T ign ho_file ws = Ok arrivals ->
+    Proofs.C14Front.oracle_ok ho_file -> Proofs.C14Front.oracle_ok ho_crate -> Proofs.C14Front.oracle_ok hc ->
+    c9m_ids_wf arrivals = true ->
+    forall c pd, In (c, pd) (multi_crates ho_crate arrivals) ->
+    let imports := crate_imports hc (multi_crates ho_crate arrivals) c pd in
+    forall text, kt_generate_multi uc cfg c imports pd = Ok text ->
+      (exists ds fd,
+         kt_decls uc cfg pd = Ok ds /\ kt_file_decls uc cfg pd = Ok fd /\ fd_decls fd = map kt_obs ds /\
+         text = (kt_render_header (Proofs.C12MultiStateless.kt_header_multi cfg c) ++
+                 Spec.C14KotlinSpec.c14_kt_import_block (kt_package cfg) (kt_prefix cfg) (scoped_pairs imports) ++
+                 List.concat (map kt_render_decl ds))%list /\
+         good_C09_multi Kotlin (kt_prefix cfg) arrivals c (c09_observe Kotlin fd) = true) /\
+      (forall v, In v (Spec.C14Spec.judge_crate (Proofs.C14Main.c14_infos uc T ws) ign c (scoped_pairs imports)) ->
+         Spec.C14Spec.rv_dom v = true ->
+         Spec.C14Spec.rv_imported v = true /\
+         (c9m_two_names arrivals (Spec.C14Spec.rv_from v) (Spec.C14Spec.rv_name v) = false ->
+          Spec.C14Spec.rv_generated_name v = c9m_emitted_name arrivals (Spec.C14Spec.rv_from v) (Spec.C14Spec.rv_name v))) /\
+      (forall k n, In (k, n) (scoped_pairs imports) ->
+         k <> c /\
+         exists pdk, In (k, pdk) (multi_crates ho_crate arrivals) /\
+           (exists it, In it (items_of pdk) /\ Spec.C14Spec.is_type14 it = true /\ renamed (item_id it) = n) /\
+           forall imk textk, kt_generate_multi uc cfg k imk pdk = Ok textk ->
+             forall it, In it (items_of pdk) -> Spec.C14Spec.is_type14 it = true -> renamed (item_id it) = n ->
+               exists ds pre post,
+                 kt_decl_of cfg it = Ok ds /\
+                 textk = (kt_begin_file_multi cfg k ++ Spec.C14KotlinSpec.c14_kt_import_block (kt_package cfg) (kt_prefix cfg) (scoped_pairs imk) ++
+                          pre ++ List.concat (map kt_render_decl ds) ++ post)%list /\
+                 (Spec.C14KotlinSpec.c14_kt_alias_class it = false -> exists d, In d ds /\ d_name (kt_obs d) = (kt_prefix cfg ++ n)%list)).
+Proof. exact Props.C09.C09_multi_Kotlin_spelled_and_imported. Qed.
+Print Assumptions Props.C09.C09_multi_Kotlin_spelled_and_imported.
+Goal Proofs.C09MultiLangWitness.wl_dom Kotlin (lit "KP") Proofs.C09MultiLangWitness.ws_rich = Some (true, None) /\
+  Proofs.C09MultiLangWitness.wl_dom Kotlin [] Proofs.C09MultiLangWitness.ws_rich = Some (true, None) /\
+  Proofs.C09MultiLangWitness.wl_kt (lit "KP") Proofs.C09MultiLangWitness.ws_rich Proofs.C14Witness.MY = Some (5, 16, true)%nat /\
+  Proofs.C09MultiLangWitness.wl_kt [] Proofs.C09MultiLangWitness.ws_rich Proofs.C14Witness.MY = Some (5, 16, true)%nat /\
+  Proofs.C09MultiLangWitness.wl_kt (lit "KP") Proofs.C09MultiLangWitness.ws_rich (lit "a") = Some (3, 0, true)%nat /\
+  Proofs.C09MultiLangWitness.wl_kt_respelled (lit "KP") Proofs.C09MultiLangWitness.ws_rich Proofs.C14Witness.MY (lit "KPA2Renamed") (lit "KPA2") = Some false /\
+  Proofs.C09MultiLangWitness.wl_kt_respelled (lit "KP") Proofs.C09MultiLangWitness.ws_rich Proofs.C14Witness.MY (lit "KPA2Renamed") (lit "A2Renamed") = Some false /\
+  Proofs.C09MultiLangWitness.wl_kt_respelled (lit "KP") Proofs.C09MultiLangWitness.ws_rich Proofs.C14Witness.MY (lit "T") (lit "KPT") = Some false /\
+  Proofs.C09MultiLangWitness.wl_kt_respelled (lit "KP") Proofs.C09MultiLangWitness.ws_rich Proofs.C14Witness.MY (lit "KPEVInner") (lit "KPEV") = Some false.
+Proof. exact Props.C09.C09_multi_Kotlin_nonvacuous. Qed.
+Print Assumptions Props.C09.C09_multi_Kotlin_nonvacuous.
+Goal Proofs.C09MultiLangWitness.wl_dom Kotlin (lit "KP") Proofs.C09MultiLangWitness.ws_emitted_generic = Some (true, Some "C09-multi-emitted-generic"%string) /\
+  Proofs.C09MultiLangWitness.wl_dom Kotlin [] Proofs.C09MultiLangWitness.ws_emitted_generic = Some (true, None) /\
+  Proofs.C09MultiWitness.wm_spec Proofs.C09MultiLangWitness.ws_emitted_generic Proofs.C14Witness.MY (lit "A2") = [(Some (lit "a"), Some (lit "X2"), None)] /\
+  Proofs.C09MultiWitness.wm_kt_text (lit "KP") Proofs.C09MultiLangWitness.ws_emitted_generic Proofs.C14Witness.MY =
+    Some (lit "package p.my_crate" ++ [10%N; 10%N] ++ lit "import kotlinx.serialization.Serializable" ++ [10%N] ++
+          lit "import kotlinx.serialization.SerialName" ++ [10%N; 10%N] ++ lit "import p.a.KPX2" ++ [10%N; 10%N] ++
+          lit "@Serializable" ++ [10%N] ++ lit "data class KPG<X2> (" ++ [10%N; 9%N] ++ lit "val f: X2," ++ [10%N; 9%N] ++ lit "val g: X2" ++ [10%N] ++
+          lit ")" ++ [10%N; 10%N])%list /\
+  match Proofs.C09MultiWitness.wm_kt_text (lit "KP") Proofs.C09MultiLangWitness.ws_emitted_generic (lit "a") with
+  | Some t => contains_sub (lit "data class KPX2 (") t | None => false end = true.
+Proof. exact Props.C09.C09_multi_emitted_generic_refuted. Qed.
+Print Assumptions Props.C09.C09_multi_emitted_generic_refuted.
+Goal forall (L : lang) (fd : file_decls), c09_observe L fd = c9m_observe_decls L (fd_decls fd).
+Proof. exact Props.C09.C09_multi_observe_decls. Qed.
+Print Assumptions Props.C09.C09_multi_observe_decls.
+Goal forall (uc : unicode) (cfg : sw_config) (ho : list imported -> list imported) (arrivals : list (str * parsed)),
+    Proofs.C14Front.oracle_ok ho -> c9m_ids_wf arrivals = true ->
+    forall (b : str) (pd' : parsed), In (b, pd') (multi_crates ho arrivals) ->
+    forall (st : sw_state) (text : str) (st' : sw_state), sw_generate_multi uc cfg st pd' = Ok (text, st') ->
+    exists ds : list sw_decl,
+      Proofs.C12MultiSwift.sw_multi_decls uc cfg st pd' = Ok (ds, st') /\
+      text = (sw_begin_file cfg ++ List.concat (map sw_render_decl ds))%list /\
+      Forall (fun d => (c09_is_def d = true -> c9m_ldef_ok Swift arrivals b (sw_prefix cfg) (d_name d)) /\
+                       (forall r, In r (c09_decl_refs Swift d) -> c9m_lref_ok Swift arrivals b (sw_prefix cfg) r)) (flat_map sw_obs ds) /\
+      good_C09_multi Swift (sw_prefix cfg) arrivals b (c9m_observe_decls Swift (flat_map sw_obs ds)) = true.
+Proof. exact Props.C09.C09_multi_Swift. Qed.
+Print Assumptions Props.C09.C09_multi_Swift.
+Goal forall (uc : unicode) (cfg : sw_config) (pd' : parsed) (st : sw_state) (ds : list sw_decl) (st' : sw_state),
+    Proofs.C12MultiSwift.sw_multi_decls uc cfg st pd' = Ok (ds, st') ->
+    forall o, In o (flat_map sw_obs ds) -> Proofs.C09MultiLang.c9l_decl_ok Swift (sw_prefix cfg) pd' o.
+Proof. exact Props.C09.C09_multi_Swift_shape. Qed.
+Print Assumptions Props.C09.C09_multi_Swift_shape.
+Goal forall (uc : unicode) (cfg : sc_config) (ho : list imported -> list imported) (arrivals : list (str * parsed)),
+    Proofs.C14Front.oracle_ok ho -> c9m_ids_wf arrivals = true ->
+    forall (b : str) (pd' : parsed), In (b, pd') (multi_crates ho arrivals) ->
+    forall fd : file_decls, sc_file_decls uc cfg pd' = Ok fd ->
+      Forall (fun d => (c09_is_def d = true -> c9m_ldef_ok Scala arrivals b [] (d_name d)) /\
+                       (forall r, In r (c09_decl_refs Scala d) -> c9m_lref_ok Scala arrivals b [] r)) (fd_decls fd) /\
+      good_C09_multi Scala [] arrivals b (c09_observe Scala fd) = true.
+Proof. exact Props.C09.C09_multi_Scala. Qed.
+Print Assumptions Props.C09.C09_multi_Scala.
+Goal forall (uc : unicode) (cfg : sc_config) (pd' : parsed) (objs pkgs : list sc_decl), sc_decls uc cfg pd' = Ok (objs, pkgs) ->
+    forall o, In o (flat_map sc_obs (objs ++ pkgs)) -> Proofs.C09MultiLang.c9l_decl_ok Scala [] pd' o.
+Proof. exact Props.C09.C09_multi_Scala_shape. Qed.
+Print Assumptions Props.C09.C09_multi_Scala_shape.
+Goal forall (uc : unicode) (cfg : py_config) (ho : list imported -> list imported) (arrivals : list (str * parsed)),
+    Proofs.C14Front.oracle_ok ho -> c9m_ids_wf arrivals = true ->
+    forall (b : str) (pd' : parsed), In (b, pd') (multi_crates ho arrivals) ->
+    forall (st : py_state) (text : str) (st' : py_state), py_generate_multi uc cfg st pd' = Ok (text, st') ->
+    exists ds : list py_decl,
+      Proofs.C12Multi.py_multi_decls uc cfg st pd' = Ok (ds, st') /\
+      text = (py_begin_file cfg ++ py_write_all_imports st' ++ py_write_custom_translations st' ++ List.concat (map py_render_decl ds))%list /\
+      Forall (fun d => (c09_is_def d = true -> c9m_ldef_ok Python arrivals b [] (d_name d)) /\
+                       (forall r, In r (c09_decl_refs Python d) -> c9m_lref_ok Python arrivals b [] r)) (flat_map py_obs ds) /\
+      good_C09_multi Python [] arrivals b (c9m_observe_decls Python (flat_map py_obs ds)) = true.
+Proof. exact Props.C09.C09_multi_Python. Qed.
+Print Assumptions Props.C09.C09_multi_Python.
+Goal forall (uc : unicode) (cfg : py_config) (pd' : parsed) (st : py_state) (ds : list py_decl) (st' : py_state),
+    Proofs.C12Multi.py_multi_decls uc cfg st pd' = Ok (ds, st') ->
+    forall o, In o (flat_map py_obs ds) -> Proofs.C09MultiLang.c9l_decl_ok Python [] pd' o.
+Proof. exact Props.C09.C09_multi_Python_shape. Qed.
+Print Assumptions Props.C09.C09_multi_Python_shape.
+Goal Proofs.C09MultiLangWitness.wl_dom Swift (lit "OP") Proofs.C09MultiLangWitness.ws_rich = Some (true, None) /\
+  Proofs.C09MultiLangWitness.wl_dom Scala [] Proofs.C09MultiLangWitness.ws_rich = Some (true, None) /\
+  Proofs.C09MultiLangWitness.wl_dom Python [] Proofs.C09MultiLangWitness.ws_rich = Some (true, None) /\
+  Proofs.C09MultiLangWitness.wl_sw (lit "OP") Proofs.C09MultiLangWitness.ws_rich Proofs.C14Witness.MY (lit "OPA2Renamed") (lit "OPA2") = Some (5, 13, true, false)%nat /\
+  Proofs.C09MultiLangWitness.wl_sw (lit "OP") Proofs.C09MultiLangWitness.ws_rich Proofs.C14Witness.MY (lit "T") (lit "OPT") = Some (5, 13, true, false)%nat /\
+  Proofs.C09MultiLangWitness.wl_sc Proofs.C09MultiLangWitness.ws_rich Proofs.C14Witness.MY (lit "A2Renamed") (lit "A2") = Some (5, 16, true, false)%nat /\
+  Proofs.C09MultiLangWitness.wl_sc Proofs.C09MultiLangWitness.ws_rich Proofs.C14Witness.MY (lit "E") (lit "E2") = Some (5, 16, true, false)%nat /\
+  Proofs.C09MultiLangWitness.wl_py Proofs.C09MultiLangWitness.ws_rich Proofs.C14Witness.MY (lit "A2Renamed") (lit "A2") = Some (5, 12, true, false)%nat /\
+  Proofs.C09MultiLangWitness.wl_py Proofs.C09MultiLangWitness.ws_rich Proofs.C14Witness.MY (lit "EVInner") (lit "EV") = Some (5, 12, true, false)%nat.
+Proof. exact Props.C09.C09_multi_Swift_Scala_Python_nonvacuous. Qed.
+Print Assumptions Props.C09.C09_multi_Swift_Scala_Python_nonvacuous.
+Goal Proofs.C09MultiLangWitness.wl_dom Kotlin [] Proofs.C09MultiLangWitness.ws_alias_renamed = Some (true, Some "C09-kotlin-alias"%string) /\
+  Proofs.C09MultiLangWitness.wl_dom Scala [] Proofs.C09MultiLangWitness.ws_alias_renamed = Some (true, Some "C09-scala-alias"%string) /\
+  Proofs.C09MultiLangWitness.wl_dom Go [] Proofs.C09MultiLangWitness.ws_alias_renamed = Some (true, Some "C09-go-alias"%string) /\
+  Proofs.C09MultiLangWitness.wl_dom Swift [] Proofs.C09MultiLangWitness.ws_alias_renamed = Some (true, None) /\
+  Proofs.C09MultiLangWitness.wl_dom Python [] Proofs.C09MultiLangWitness.ws_alias_renamed = Some (true, None).
+Proof. exact Props.C09.C09_multi_alias_classes. Qed.
+Print Assumptions Props.C09.C09_multi_alias_classes.
+Goal forall (uc : unicode) (cfg : go_config) (ho : list imported -> list imported) (arrivals : list (str * parsed)),
+    go_uppercase_acronyms cfg = [] ->
+    Proofs.C14Front.oracle_ok ho -> c9m_ids_wf arrivals = true ->
+    forall (b : str) (pd' : parsed), In (b, pd') (multi_crates ho arrivals) ->
+    forall (st : go_state) (text : str) (st' : go_state), go_generate_multi uc cfg st pd' = Ok (text, st') ->
+    exists (ds : list go_decl) (header : str) (st1 : go_state),
+      Proofs.C12MultiGo.go_multi_decls uc cfg st pd' = Ok (ds, st') /\ go_begin_file cfg st = Ok (header, st1) /\
+      text = (header ++ go_write_all_imports st' ++ List.concat (map go_render_decl ds))%list /\
+      Forall (fun d => (c09_is_def d = true -> c9m_ldef_ok Go arrivals b [] (d_name d)) /\
+                       (forall r, In r (c09_decl_refs Go d) -> c9m_lref_ok Go arrivals b [] r)) (flat_map go_obs ds) /\
+      good_C09_multi Go [] arrivals b (c9m_observe_decls Go (flat_map go_obs ds)) = true.
+Proof. exact Props.C09.C09_multi_Go_partial. Qed.
+Print Assumptions Props.C09.C09_multi_Go_partial.
+Goal forall (uc : unicode) (cfg : go_config), go_uppercase_acronyms cfg = [] ->
+  forall (pd' : parsed) (st : go_state) (ds : list go_decl) (st' : go_state),
+    Proofs.C12MultiGo.go_multi_decls uc cfg st pd' = Ok (ds, st') ->
+    forall o, In o (flat_map go_obs ds) -> Proofs.C09MultiLang.c9l_decl_ok Go [] pd' o.
+Proof. exact Props.C09.C09_multi_Go_shape_partial. Qed.
+Print Assumptions Props.C09.C09_multi_Go_shape_partial.
+Goal Proofs.C09MultiLangWitness.wl_dom Go [] Proofs.C09MultiLangWitness.ws_rich = Some (true, None) /\
+  Proofs.C09MultiLangWitness.wl_go Proofs.C09MultiLangWitness.ws_rich Proofs.C14Witness.MY (lit "A2Renamed") (lit "A2") = Some (5, 12, true, false)%nat /\
+  Proofs.C09MultiLangWitness.wl_go Proofs.C09MultiLangWitness.ws_rich Proofs.C14Witness.MY (lit "EVInner") (lit "EV") = Some (5, 12, true, false)%nat.
+Proof. exact Props.C09.C09_multi_Go_nonvacuous. Qed.
+Print Assumptions Props.C09.C09_multi_Go_nonvacuous.
+Goal forall (L : lang) (pfx : str) (ws : c9m_ws), c9m_lknown_ws L pfx ws = None ->
+  forall b f, In (b, f) ws ->
+    (forall tp form i, In tp (c09_tposs f) -> In (form, i) (c09_type_ids (c9t_type tp)) -> c9m_lknown L pfx ws b f tp i = None) /\
+    (forall e, In e (c9m_entities ws b) ->
+       match c9e_kind e with
+       | C9KInner => c09_inner_site_class L e = None
+       | _ => c9m_def_class L e = None /\ c09_parent_site_class L e = None
+       end).
+Proof. exact Props.C09.C09_multi_no_class. Qed.
+Print Assumptions Props.C09.C09_multi_no_class.
